@@ -23,12 +23,15 @@ CHECKS = {
          "Rocq/Coq proof (invariant induction) + correspondence", "DESIGN.md §3 C16"),
 }
 
-PART = ("PARTIAL proof level: the theorems cover the atomic layer (emplace/extract of one value: every bit length > 0, bit position, both byte orders, "
-        "any previous message content, all signed encodings, unsigned, byte fields, latin-1 strings) and, at message level (Proofs/FlatProofs.v, about the model's "
-        "real entry points encode_msg / decode_msg / static_bits_msg), every message which is a sequence of any number of standard-length CODED-CONST / VALUE parameters with "
-        "implicit positions: encode succeeds without overlap warning, decode returns the encoded values, the length is the static length "
-        "(C01_flat_message_roundtrip, C08_flat_length_is_static) and the PDU is exactly the concatenation of the zero-padded big-endian / byte-swapped raw values (C02_flat_wire_format), the round trip also for STRUCTUREs of such parameters nested to any depth, with PHYS-CONST parameters and LEADING-LENGTH byte fields as further leaves (C01_nested_message_roundtrip, C01_physconst_leaf, C01_leading_length_leaf; Proofs/TreeProofs.v), and a message of canonical slices decodes to values which encode to the message again (C03_flat_message_reencode). The composite statement over general parameter trees "
-        "(fields, dynamic-length types, explicit / bit positions, BYTE-SIZE, length keys) is NOT a theorem: it is decided by the model/implementation correspondence on generated "
+PART = ("PARTIAL proof level: the theorems cover (a) the atomic layer (emplace/extract of one value: every bit length > 0, bit position, both byte orders, "
+        "any previous message content, all signed encodings, unsigned, byte fields, latin-1 strings) and (b) the message level, about the model's real entry points "
+        "encode_msg / decode_msg / static_bits_msg, for every message whose parameters are standard-length CODED-CONST / VALUE parameters with implicit positions or "
+        "STRUCTUREs of such nested to any depth: round trip (C01_flat_message_roundtrip, C01_nested_message_roundtrip), wire format = concatenation of the leaf bytes "
+        "(C02_flat_wire_format, C02_nested_wire_format), re-encoding of canonical PDUs (C03_flat_message_reencode, C03_nested_message_reencode), every value is rejected with "
+        "the library's error or accepted and read back (C04_flat_rejections_are_library_errors, C04_flat_accept_or_reject for integer parameters), every byte string decodes to "
+        "values or a decode error and truncated PDUs are rejected (C05_flat_message_total, C05_nested_message_total, *_truncation), static length = length of every encoding, "
+        "required parameters needed and sufficient (C08_flat_*, C08_nested_*). Everything else of the composite layer "
+        "(fields, dynamic-length types, explicit / bit positions, BYTE-SIZE, length keys, bit masks) is NOT a theorem: it is decided by the model/implementation correspondence on generated "
         "ODX documents plus the property's direct oracle on the implementation. ")
 CODEC_NOTE = TB + ("Model scope: strict mode; int/bytefield/string base types (no floats), STANDARD/MIN-MAX/LEADING-LENGTH/PARAM-LENGTH types, IDENTICAL and integer "
         "LINEAR compu, structures, 4 field kinds, 7 parameter kinds; multiplexer, tables, DTC, env-data, floats and real-valued physical types are not modelled: hand-written ODX documents exercise them against direct oracles only (codec_checks.py UNMODELLED_DOC, UNMODELLED_DOC2, REAL_DOPS, the float document, snoop telegram sequences). String codecs re-implemented in Gallina; "
@@ -80,7 +83,7 @@ CHECKS["C14"] = ("Coq theorems for all candidate lists, all deterministic ECUs a
     "Rocq/Coq proof (loop invariants) + correspondence over all response functions", "DESIGN.md §3 C14")
 CHECKS["C18"] = ("Coq theorems for all layers: self comparison reports nothing; an added service is reported as new; a renamed service (same request prefix) as renamed; a deleted service is reported as deleted (also from a layer left empty) and every reported deletion is real; concrete single-edit examples. "
     "Model of compare_diagnostic_layers' classification tied to the tool by correspondence on generated layers x every single edit of the property text; oracle: exactly that kind of change for exactly that service and the changed property listed; rows of print_dl_metrics.",
-    TB + "PARTIAL: attribute-level parameter comparison (compare_parameters) and metrics are correspondence/oracle only; list/find/decode sub-commands not covered (their logic is C06's).",
+    TB + "Attribute level: Model/CompareParams.v models compare_parameters over abstracted attribute values (theorems: self comparison empty, each basic property reported iff different, linked DOP / unit / coded constant reported iff different), tied to the tool on every parameter list under every edit, the shipped example pair and one-attribute variants. PARTIAL: metrics rows are oracle only; list/find/decode sub-commands not covered (their logic is C06's).",
     "Rocq/Coq proof (classification lemmas by induction over the service lists) + single-edit enumeration", "DESIGN.md §3 C18")
 CHECKS["C10"] = ("Coq theorems for all link databases / references / layers: a lookup yields the object carrying the id (ids unique per fragment); an ODXLINK reference binds to what the innermost of its fragments binding the id holds, a DOCREF reference to the referenced fragment alone; "
     "unresolvable iff no fragment binds the id; typed references bind only to the expected kind; imported ids become visible in the importing layer's fragments, never shadow a bound id and change no other fragment; only shared-data layers are imported; "
